@@ -54,9 +54,10 @@ type Machine struct {
 	preemptAt  int
 	preemptFn  *Func
 	lockAcq    int
-	inPreempt  bool
 	preemptRan bool
-	preHeld    map[*Cell]lockState
+	spawnAsThread bool
+	cur        int        // running thread: 0 = the operation under test, 1 = the interleaved one
+	co         *coroutine // the interleaved operation
 	keepSymBounds bool // harness asked to keep symbolic slice bounds symbolic (sizes-only models)
 }
 
@@ -430,7 +431,14 @@ func (m *Machine) run(fr *frame, block *ssa.BasicBlock) Val {
 			case *ssa.Go:
 				cc := x.Common()
 				callee, args := m.resolve(fr, cc)
-				m.spawned = append(m.spawned, func() { m.invoke(callee, args, cc) })
+				body := func() { m.invoke(callee, args, cc) }
+				if m.spawnAsThread && m.cur == 0 && m.co == nil {
+					// the goroutine starts running at once as thread 1 (until it returns, waits for a lock or
+					// pauses in a long environment call); the spawning operation continues meanwhile
+					m.startCo(body)
+				} else {
+					m.spawned = append(m.spawned, body)
+				}
 			case *ssa.Defer:
 				cc := x.Common()
 				callee, args := m.resolve(fr, cc)
